@@ -150,6 +150,11 @@ func c11Rules() []c11Rule {
 			Explicit: kvm("networks", []any{"default", "other"}), TopE: kvm("networks", kvm("other", nil, "default", nil)),
 			Different: kvm("networks", kvm("default", kvm("aliases", []any{"al"}))), TopD: kvm("networks", kvm("default", kvm("driver", "overlay"))), Check: "default-network-overlay", AbsentCheck: "default-network-present"},
 		{Name: "network-mode-no-default-network", Implicit: kvm("network_mode", "host"), Explicit: kvm("network_mode", "host"), Different: kvm("network_mode", "host"), Check: "web-no-networks", AbsentCheck: "web-no-networks"},
+		// `external: false` is the default written out: the resource is still the project's own
+		{Name: "network-name-external-false", TopI: kvm("networks", kvm("net1", kvm("external", false))), TopE: kvm("networks", kvm("net1", kvm("external", false, "name", "proj_net1")))},
+		{Name: "volume-name-external-false", TopI: kvm("volumes", kvm("vol1", kvm("external", false))), TopE: kvm("volumes", kvm("vol1", kvm("external", false, "name", "proj_vol1")))},
+		{Name: "secret-name-external-false", TopI: kvm("secrets", kvm("sec1", kvm("file", "/s", "external", false))), TopE: kvm("secrets", kvm("sec1", kvm("file", "/s", "external", false, "name", "proj_sec1")))},
+		{Name: "config-name-external-false", TopI: kvm("configs", kvm("cfg1", kvm("content", "c", "external", false))), TopE: kvm("configs", kvm("cfg1", kvm("content", "c", "external", false, "name", "proj_cfg1")))},
 		{Name: "network-name", TopI: kvm("networks", kvm("net1", nil)), TopE: kvm("networks", kvm("net1", kvm("name", "proj_net1"))),
 			TopD: kvm("networks", kvm("net1", kvm("name", "custom"))), Check: "network-name-custom"},
 		{Name: "volume-name", TopI: kvm("volumes", kvm("vol1", kvm())), TopE: kvm("volumes", kvm("vol1", kvm("name", "proj_vol1"))),
